@@ -187,6 +187,32 @@ def pd_closure(prog: Program) -> RuleResult:
             r.check(ok, key, site_add, f"{n_paths} paths", good, "the transitive inference does not run for a transitive descriptor")
             continue
         r.check(pk not in problems, key, site_add, f"{n_paths} paths of the update procedure", good, f"{problems.get(pk, '')}: {badtail}")
+    # the summary runs each loop once with a generic element: that stands for every element only if no round can end the loop
+    fs, _ = self_closure(prog, pdr.qual, add, False)
+    n_loops = 0
+    for g in sorted([g for g in fs if g.cls is not None and g.cls.qual == pdr.qual], key=lambda x: x.qual):
+        for lp in [x for x in walk_local(g.node) if isinstance(x, (ast.For, ast.While))]:
+            derives = any((isinstance(cc.func, ast.Attribute) and src(cc.func) == "self.__class__") or (isinstance(cc.func, ast.Call) and src(cc.func) == "type(self)")
+                          or (isinstance(cc.func, ast.Name) and cc.func.id == pdr.name) for cc in calls_in(lp))
+            if not derives:
+                continue
+            n_loops += 1
+            exits = []
+            todo = list(lp.body)
+            while todo:
+                x = todo.pop()
+                if isinstance(x, (ast.FunctionDef, ast.AsyncFunctionDef, ast.Lambda, ast.For, ast.While)):
+                    # a nested loop's break leaves the nested loop only; its return is found below
+                    exits += [y for y in ast.walk(x) if isinstance(y, ast.Return)] if isinstance(x, (ast.For, ast.While)) else []
+                    continue
+                if isinstance(x, (ast.Break, ast.Return)):
+                    exits.append(x)
+                todo += list(ast.iter_child_nodes(x))
+            r.check(not exits, f"PropertyDescriptorRelation.{g.name}#every-element", site(g, exits[0]) if exits else site(g, lp), src(lp.iter)[:80] if isinstance(lp, ast.For) else "while",
+                    "the inference loop runs for every element", f"the loop over {src(lp.iter) if isinstance(lp, ast.For) else 'the condition'} can end early ({type(exits[0]).__name__.lower() if exits else ''} at line "
+                    f"{exits[0].lineno if exits else 0}): the consequences of the remaining elements are never derived - e.g. when a super relation is already known through another path, "
+                    "the further super properties of this relation are skipped")
+    r.note(f"{n_loops} edge-deriving loops in the update procedure (a missing family is reported by the calls-* / outgoing / incoming obligations)")
     # who-may-call: nothing in ontomatic adds relations behind the procedure's back
     offenders = []
     for f in prog.functions.values():
@@ -476,5 +502,37 @@ def pd_supers(prog: Program) -> RuleResult:
     return r
 
 
+def pd_replace(prog: Program) -> RuleResult:
+    """Assignment to a collection field empties the live container first.  The relations of the elements that leave the field
+    stay in the graph (there is no retraction), so the field has to be brought back in line with the graph - or the relations
+    have to go."""
+    from .c16 import _set_fn, PD as _PD, MC as _MC
+
+    r = RuleResult("PD-REPLACE", "emptying a managed collection keeps field and graph in agreement", floor=1)
+    f = _set_fn(prog)
+    pd = prog.cls(_PD)
+    clears = [c for c in calls_in(f.node) if call_name(c) in ("_clear", "clear") and isinstance(c.func, ast.Attribute)]
+    if not clears:
+        r.ok("PropertyDescriptor.__set__#clear-without-retraction", site(f), "", "the setter never empties a live container")
+        return r
+    seen, ext = self_closure(prog, pd.qual, f, False)
+    reached = {g.name for g in seen}
+    for g in list(seen):
+        for c in calls_in(g.node):
+            reached.add(call_name(c) or "")
+    reconciles = sorted(n for n in reached if n.startswith(("remove_relation", "remove_edge", "retract", "get_outgoing_relations")))
+    r.check(bool(reconciles), "PropertyDescriptor.__set__#clear-without-retraction", site(f, clears[0]), src(clears[0]),
+            f"the setter reconciles with the graph through {reconciles}",
+            "the setter empties the live container and re-adds the assigned values only; the relations of the elements that left stay in the graph and are never read back: "
+            "after c.members.add(p) (which infers member_of(p, c)) the assignment p.member_of = [c2] leaves the field at [c2] while the graph keeps member_of(p, c) - in the other order the field is [c2, c]")
+    return r
+
+
+def _mc_eq(prog):
+    from .c16 import mc_eq
+
+    return mc_eq(prog)
+
+
 def run(prog: Program, tier: str) -> List[RuleResult]:
-    return [pd_closure(prog), pd_owner(prog), pd_supers(prog), user_truth(prog, ["property_descriptor.property_descriptor", "property_descriptor.monitored_container", "property_descriptor.property_descriptor_relation"], 2)]
+    return [pd_closure(prog), pd_owner(prog), pd_supers(prog), _mc_eq(prog), pd_replace(prog), user_truth(prog, ["property_descriptor.property_descriptor", "property_descriptor.monitored_container", "property_descriptor.property_descriptor_relation"], 2)]
